@@ -569,3 +569,83 @@ def check_iter_mutation(ctx, rule, func, exceptions=None):
                detail='%s iterates %s and mutates it inside the loop with `%s`: elements are skipped (or the iteration fails)'
                       % (func.construct, coll, norm(hit)), where=where(func, hit))
     return n
+
+
+# ---------------------------------------------------------------------------------------
+# R-XY: paired x / y expressions agree up to the renaming y -> x (cross-checking siblings, Engler et al.)
+def xy_pairs(tree):
+    """{y-identifier: x-identifier} for the identifiers of a module that come in x/y pairs."""
+    idents = {n.id for n in ast.walk(tree) if isinstance(n, ast.Name)} | {n.attr for n in ast.walk(tree) if isinstance(n, ast.Attribute)} | \
+        {a.arg for n in ast.walk(tree) if isinstance(n, ast.arguments) for a in n.args + n.kwonlyargs}
+    pairs = {}
+    for i in idents:
+        for a, b in (('y', 'x'), ('Y', 'X'), ('height', 'width')):
+            if a in i:
+                j = i.replace(a, b)
+                if j in idents and j != i:
+                    pairs[i] = j
+                    break
+    return pairs
+
+
+def check_xy_symmetry(ctx, rule, mod, exceptions, floor):
+    """Two-operand conjunctions / disjunctions / pairs whose first operand mentions only x-names and whose second only
+    y-names must be the same expression up to the renaming."""
+    import copy
+    pairs = xy_pairs(mod.tree)
+    xs = set(pairs.values())
+
+    class Ren(ast.NodeTransformer):
+        def visit_Name(self, n):
+            return ast.copy_location(ast.Name(id=pairs.get(n.id, n.id), ctx=n.ctx), n)
+
+        def visit_Attribute(self, n):
+            self.generic_visit(n)
+            return ast.copy_location(ast.Attribute(value=n.value, attr=pairs.get(n.attr, n.attr), ctx=n.ctx), n)
+
+    def names(e):
+        return [n.id for n in ast.walk(e) if isinstance(n, ast.Name)] + [n.attr for n in ast.walk(e) if isinstance(n, ast.Attribute)]
+
+    owner = {}
+    for top in ast.walk(mod.tree):
+        if isinstance(top, ast.ClassDef):
+            for ch in top.body:
+                if isinstance(ch, (ast.FunctionDef, ast.AsyncFunctionDef)):
+                    for x in ast.walk(ch):
+                        owner.setdefault(id(x), '%s.%s' % (top.name, ch.name))
+    for top in mod.tree.body:
+        if isinstance(top, (ast.FunctionDef, ast.AsyncFunctionDef)):
+            for x in ast.walk(top):
+                owner.setdefault(id(x), top.name)
+    n = 0
+    used = set()
+    for node in ast.walk(mod.tree):
+        ops = None
+        if isinstance(node, ast.BoolOp) and len(node.values) == 2:
+            ops = node.values
+        elif isinstance(node, ast.Tuple) and len(node.elts) == 2:
+            ops = node.elts
+        if not ops:
+            continue
+        a, b = ops
+        na, nb = names(a), names(b)
+        if not (any(x in xs for x in na) and not any(x in pairs for x in na) and any(x in pairs for x in nb) and not any(x in xs for x in nb)):
+            continue
+        n += 1
+        ta, tb = unparse(a), unparse(b)
+        same = unparse(Ren().visit(copy.deepcopy(b))) == ta
+        where_ = owner.get(id(node), '<module>')
+        key = '%s | %s' % (ta, tb)
+        if not same and key in exceptions:
+            used.add(key)
+            ctx.exception(rule, '%s:%s `%s`' % (mod.name, where_, key[:80]), exceptions[key])
+            continue
+        ctx.ob(rule, '%s:%s `%s`' % (mod.name, where_, key[:100]), 'the y-expression is the x-expression with y for x', same,
+               detail='in %s:%s the paired expressions `%s` and `%s` differ by more than the renaming x -> y: one of the two is a slip '
+                      '(the sibling expression is the reference)' % (mod.name, where_, ta, tb), where='%s:%d' % (mod.relpath, node.lineno))
+    stale = [k for k in exceptions if k not in used]
+    if stale:
+        raise AnalysisError('%s: stale x/y exception rows: %s' % (rule, stale))
+    if n < floor:
+        raise AnalysisError('%s: only %d x/y pairs found in %s (expected at least %d)' % (rule, n, mod.name, floor))
+    return n
